@@ -61,7 +61,7 @@ def declare2(S: Spec):
            " and implies(not s.multi_operator_containers, len(a.ops) == 1"
            "             and all(old(ParentsDone(op.pipeline._runtime_status, op)) for op in a.ops))")
 
-    S.fn(f"{MN}:naive_pipeline", owners=["C17"],
+    S.fn(f"{MN}:naive_pipeline", owners=["C17", "C08"],
          params={"s": Ref("Scheduler"), "results": List(Ref("ExecutionResult")), "pipelines": List(Ref("Pipeline"))},
          returns=Tuple(List(Ref("Suspend")), List(Ref("Assignment"))),
          requires=["s is not None and results is not None and pipelines is not None and s.waiting_queue is not None",
